@@ -8,18 +8,21 @@ ROOT = os.path.dirname(os.path.dirname(os.path.abspath(__file__)))
 
 HOOK_COMMITS = []  # filled from `git -C /repo log` (commits whose subject starts with "verif hook")
 
-CHECKS = {
-    'C10': dict(
-        technique='TLA+ P-spec Ports + closed model MCPorts (TLC exhaustive); every transition of the TLC state graph replayed on ports.PortManager; real-width ephemeral-search cases and concurrent histories validated by TLC (trace validation / linearizability)',
-        text='Exhaustive TLC over all reserve/release histories of the small configuration (Exclusive, frame properties), the k-bit model of the ephemeral loop, and conformance of the real PortManager to the same spec on every graph transition, on seeded ephemeral-search cases at real width and on racing goroutine histories linearized by TLC.',
-        design='5 C10',
-        note='Constants: 2 nets, 1-2 transports, addrs {any,a,b}, ports {1,2}. Ephemeral offsets are sampled (seeded), not enumerated. math/rand seeding by the harness fixes the offset. Socket-level reservation lifecycle (bind/connect/close) is covered by the stack-level sweep when present in the evidence.'),
-    'C18': dict(
-        technique='TLA+ I-spec TMutex at atomic-operation granularity model-checked by TLC (safety + liveness); complete reachable graph of the REAL mutex under a gate scheduler compared edge-for-edge with the TLC graph; every real transition and seeded random schedules validated by TLC against the P-level trace spec',
-        text='All interleavings of 3-4 goroutines x 2 operations are explored by TLC on the I-spec (Mutex, NoLostWakeup, TryOK, NoStarve, LockReturns). The real tmutex.Mutex is driven through every reachable state/transition at hook granularity (2x2 quick, 3x2 thorough) and its graph must equal the model graph (drift otherwise); the P-level verdict comes from TLC validating the observed call/return/blocked events of every real transition against TraceTMutexProp.',
-        design='5 C18',
-        note='Trusted: Go runtime channels/atomics, the gate scheduler. Hook granularity is coarser than the atomic operations in one place (load+swap of a Lock loop iteration), since hooks are add-only; that interleaving is covered only by the TLC model. Bounded: <=4 goroutines x <=4 operations.'),
-}
+def load_checks():
+    """Each tools/checks/cNN.py declares MANIFEST = dict(technique=, text=, design=, note=[, level=])."""
+    import importlib
+    import sys
+    sys.path.insert(0, os.path.join(ROOT, 'tools'))
+    out = {}
+    for fn in sorted(os.listdir(os.path.join(ROOT, 'tools', 'checks'))):
+        if fn.startswith('c') and fn.endswith('.py'):
+            m = importlib.import_module('checks.' + fn[:-3])
+            if hasattr(m, 'MANIFEST'):
+                out[fn[:-3].upper()] = m.MANIFEST
+    return out
+
+
+CHECKS = load_checks()
 
 NOT_YET = 'check not built yet (work in progress; DESIGN.md section 7 gives the plan)'
 
